@@ -126,6 +126,14 @@ def state_key(net, U):
 B_TRANS = [("m", m) for m in MUTATIONS] + [("r", r) for r in READS]
 
 
+def _safe_worker_b(item):
+    try:
+        return worker_b(item)
+    except Exception as e:  # noqa: BLE001
+        from ..parallel import crash_stats
+        return crash_stats(worker_b, e), []
+
+
 def worker_b(item):
     """item: list of histories (frontier states).  Returns successors and stats."""
     st = Stats()
@@ -174,7 +182,7 @@ def explore_b(depth, nproc, st_total: Stats):
             if not frontier:
                 break
             shards = shards_of(frontier, nproc * 4)
-            results = pool.map(worker_b, shards, chunksize=1)
+            results = pool.map(_safe_worker_b, shards, chunksize=1)
             nxt = []
             for st, succ in results:
                 st_total.merge(st)
